@@ -532,7 +532,7 @@ def evaluate(ctx, scn):
             judge(ev2, rv, scn, "valgrind")
             for v in ev2.violations:
                 ev.add(v.prop, v.clause, "valgrind:" + v.site, "[valgrind, -O2 build] " + v.message)
-    if "plain" in ctx.builds and scn.get("tool", "btcdeb") != "none" and not scn.get("valgrind"):
+    if "plain" in ctx.flavours and ctx.default_flavour != "plain" and not scn.get("valgrind"):
         # thorough tier: the same plan in the optimised build; a divergence is a lead, only a crash is a violation
         r2 = ctx.run(w, flavour="plain")
         ev.hashes.append(r2.hash())
